@@ -273,12 +273,13 @@ def replay(task, ob, model):
 import types, lmfit
 import nanite.model as nm
 seen = []
+cp = {g("cp", 0.0)!r}
 def user_model_func(delta, E, contact_point=0, baseline=0):
     seen.append(np.array(delta, copy=True))
     # position-sensitive: slot i gets a different function of the whole input
     return np.array([(i + 1) * 1000.0 + 7.0 * delta[0] - 3.0 * delta[-1] + delta[i] for i in range(len(delta))])
 def gpd():
-    P = lmfit.Parameters(); P.add("E", value=3000, min=0); P.add("contact_point", value=0); P.add("baseline", value=0)
+    P = lmfit.Parameters(); P.add("E", value=3000, min=0); P.add("contact_point", value=cp); P.add("baseline", value=0)
     return P
 mod = types.ModuleType("user_model")
 mod.get_parameter_defaults = gpd; mod.model_doc = "d"; mod.model_func = user_model_func
@@ -315,7 +316,7 @@ for xs in (np.array({xs!r}), np.array({xs!r})[::-1].copy()):
         bad.append("abscissa modified")
     if own == "residual": continue
     r = md.residual(gpd(), xs, y, {g("weight_cp", 0.5)!r})
-    wgt = np.minimum(1, np.abs(xs - 0) / {g("weight_cp", 0.5)!r})
+    wgt = np.minimum(1, np.abs(xs - cp) / {g("weight_cp", 0.5)!r})
     if not np.allclose(r, (y - want) * wgt):
         bad.append("default residual")
 nm.deregister_model(md)
